@@ -15,7 +15,8 @@ RULE = ("rasterised jittered-hexagonal Voronoi tissues (4..60 cells, junction an
         "padding and mirror_y; ne in 3..9. A raster on which the region oracle and the generating Voronoi diagram disagree is "
         "discarded as a generator failure (counted). distinct = (cells, image size, symmetry, mirror_y, ne, pad); "
         "non-trivial = at least one internal interface"
-        ' Added after the seeded rounds: the five in_vivo skeletons, images with a lumen (only ordinary regions judged).')
+        ' Added after the seeded rounds: the five in_vivo skeletons, images with a lumen (only ordinary regions judged).'
+        " The parser's rescale / offset option in a third of the parses.")
 MIN_DECISIVE = {"quick": 60, "thorough": 1200}
 REQUIRED_COUNTERS = ["pipeline:run", "cells:compared", "border:compared", "pairs:compared", "symmetry:compared"]
 TECHNIQUE = ("runtime check of the parse->resample->frame pipeline against a region-labelling oracle and the generating "
